@@ -18,6 +18,7 @@ import pymbolic.mapper as mapmod
 from .. import usertypes as U
 from ..core import check, short
 from ..gen import expr as G
+from ..gen import scale
 from ..mon.trace import HandlerTrace
 from ..ref import normal
 from ..ref.children import children, occurrences
@@ -233,6 +234,62 @@ def c_names(ctx, case):
 
 class Weird:
     pass
+
+
+class UserNumber:
+    """an application's own number type, made known through register_constant_class"""
+
+    def __init__(self, v):
+        self.v = v
+
+    def __eq__(self, o):
+        return isinstance(o, UserNumber) and o.v == self.v
+
+    def __hash__(self):
+        return hash(("UserNumber", self.v))
+
+
+@check("C04.registered")
+def c_registered(ctx, case):
+    """'numbers ... go to their foreign-object handlers and any other object is rejected': what
+    counts as a number is what the public registry says NOW -- a class registered after the
+    mappers were imported is a constant for every mapper and stock traversal, and stops being
+    one when it is unregistered."""
+    (args, kw, cached) = case
+    obj = UserNumber(3)
+    tree = p.Sum((p.Variable("x"), p.Product((obj, p.Variable("y")))))
+    for phase in ("before", "registered", "unregistered"):
+        if phase == "registered":
+            p.register_constant_class(UserNumber)
+        try:
+            m, log = recording_mapper(CachedMapper if cached else Mapper, ["map_constant"])
+            ctx.case(None)
+            ctx.count("registry_dispatches")
+            try:
+                m(obj, *args, **kw)
+                raised = None
+            except Exception as ex:  # noqa: BLE001
+                raised = ex
+            route = [x[0] for x in log]
+            try:
+                out = IdentityMapper()(tree)
+                walked = None if normal.typed_eq(out, tree) else "changed the tree"
+            except Exception as ex:  # noqa: BLE001
+                walked = ex
+            if phase == "registered":
+                if raised is not None or route != ["map_constant"] or walked is not None:
+                    ctx.fail("C04.registered", case, "registered-class-not-a-constant",
+                             f"after register_constant_class(UserNumber): dispatch ran {route}, "
+                             f"raised {raised!r}; IdentityMapper over a tree holding one: {walked!r} "
+                             f"(is_constant says {p.is_constant(obj)})")
+            else:
+                if raised is None or not isinstance(walked, Exception):
+                    ctx.fail("C04.registered", case, f"accepted-{phase}",
+                             f"{phase} registration a UserNumber is 'any other object': dispatch "
+                             f"ran {route} raised {raised!r}; identity traversal: {walked!r}")
+        finally:
+            if phase == "registered":
+                p.unregister_constant_class(UserNumber)
 
 
 @check("C04.foreign")
@@ -936,6 +993,11 @@ def workload(ctx):
                     if ctx.mine("foreign"):
                         ctx.case(("foreign", which, args, tuple(kw)), True, n=0)
                         ctx.run("C04.foreign", (which, args, kw, rng.random() < 0.5))
+        for args in ARGS:
+            for kw in KWARGS:
+                if ctx.mine("registered"):
+                    ctx.case(("registered", args, tuple(kw)), True, n=0)
+                    ctx.run("C04.registered", (args, kw, rng.random() < 0.5))
         ctx.set_exhaustive("foreign object kinds x extra arguments")
         # traversals
         g = G.AnyGen(rng, hist=ctx.hist, share_p=0.25)
@@ -967,8 +1029,33 @@ def workload(ctx):
             ctx.run("C04.combine", (e, args, kw))
             if isinstance(e, p.Expression) and rng.random() < 0.2:
                 ctx.run("C04.callback", (e,))
+        # scale: every traversal over nodes of 9 .. 130 children (operands, call parameters,
+        # keyword arguments, tuple entries, substitution lists), children of mixed kinds
+        for w in scale.WIDTHS:
+            if not ctx.mine("wide"):
+                continue
+            vs = scale.variables(w)
+            kids = tuple(rng.choice([v, p.Sum((v, 1)), p.Subscript(v, (0, v)), p.Lookup(v, "w"),
+                                     p.Call(v, (p.Variable("q"),)), 3, p.Power(v, 2),
+                                     p.CommonSubexpression(p.Product((2, v)))]) for v in vs)
+            for mk in (p.Sum, p.Product, p.Min, p.LogicalAnd, p.BitwiseXor,
+                       lambda t: p.Call(p.Variable("f"), t),
+                       lambda t: p.CallWithKwargs(p.Variable("f"), t[:3],
+                                                  immutabledict({f"k{i}": v for i, v in enumerate(t)})),
+                       lambda t: p.Subscript(p.Variable("a"), t), lambda t: t,
+                       lambda t: p.Substitution(p.Sum(t[:3]), tuple(f"v{i}" for i in range(len(t))), t),
+                       lambda t: p.Sum((p.Product(t), p.Max(t)))):
+                e = mk(kids)
+                args, kw = rng.choice(ARGS), rng.choice(KWARGS)
+                ctx.case(("wide", normal.typed_key(e)), True, n=0)
+                ctx.count("wide_nodes")
+                ctx.run("C04.walk", (e, args, kw, ()))
+                ctx.run("C04.identity", (e, args, kw))
+                ctx.run("C04.combine", (e, args, kw))
         for k, v in tr.handlers().items():
             ctx.count("handler:" + k, v)
+    ctx.floor("wide_nodes", 250)
+    ctx.floor("registry_dispatches", 12)
     ctx.floor("raising_handlers", 500)
     ctx.floor("dispatches", 2000)
     ctx.floor("dispatch_histories", 20)
